@@ -101,7 +101,13 @@ impl Action {
 	}
 
 	pub fn get() -> Result<Self, Error> {
-		let args: Vec<_> = env::args().skip(1).collect();
+		let args = env::args_os()
+			.skip(1)
+			.map(|arg| {
+				arg.into_string()
+					.map_err(|_| "command-line arguments must be valid Unicode")
+			})
+			.collect::<Result<Vec<_>, _>>()?;
 		Self::from_args(args.as_slice())
 	}
 }
